@@ -4,7 +4,7 @@
 (* it and appends the case with its expected results to vectors.ndjson.        *)
 EXTENDS Names, GenBase
 
-CONSTANTS Mode,        \* "strings" | "shapes" | "octets" | "names" | "pairs"
+CONSTANTS Mode,        \* "strings" | "shapes" | "octets" | "names" | "texts" | "pairs"
           N,           \* size bound of the universe (meaning depends on Mode)
           Shard, NShards
 
@@ -14,6 +14,8 @@ VARIABLES v            \* the case: a sequence of small integers (symbol indices
 \* Mode "strings": all texts built from <= N symbols.  Symbols are chosen so that
 \* escapes, dots, case and the dangling backslash all occur.
 Sym == << <<97>>, <<65>>, <<48>>, <<46>>, <<92>>, <<32>>, <<92, 50, 48, 48>>, <<92, 46>> >>
+TSym == << <<97>>, <<65>>, <<48>>, <<46>>, <<92>>, <<92, 46>>, <<92, 50, 48, 48>> >>   \* mode "texts" (C19)
+TextOf(q) == Concat([i \in 1..Len(q) |-> TSym[q[i]]])
 StrOf(q) == Concat([i \in 1..Len(q) |-> Sym[q[i]]])
 InShard(q) == SumSeq([i \in 1..Len(q) |-> i * q[i]]) % NShards = Shard   \* position-weighted, so shards mix all lengths
 
@@ -47,6 +49,7 @@ Init ==
   \/ Mode = "shapes"  /\ \E sh \in ShapesUpTo(6), o \in {97, 46, 200} : v = <<o>> \o sh /\ InShard(sh)
   \/ Mode = "octets"  /\ \E o \in 0..255, pos \in 1..3 : v = <<o, pos>> /\ (o % NShards = Shard)
   \/ Mode = "names"   /\ v \in NamesUpTo(N) /\ (Len(v) = 0 \/ InShard(v[1]))
+  \/ Mode = "texts"   /\ v \in UNION { [1..k -> 1..Len(TSym)] : k \in 1..N } /\ InShard(v) /\ Parse(TextOf(v)).st = "ok"
   \/ Mode = "pairs"   /\ \E a \in NamesUpTo(N), b \in NamesUpTo(N) : v = <<a, b>> /\ (Len(a) = 0 \/ InShard(a[1]))
 Next == UNCHANGED v
 
@@ -61,9 +64,20 @@ NameVector(n) ==   \* a name given abstractly: expected text, wire and validity
   [kind |-> "name", labels |-> n, valid |-> ValidName(n), text |-> Present(n), wire |-> EncName(n),
    wirelen |-> WireLen(n)]
 
+
+\* Mode "texts" (C19): every valid text over the property's alphabet, in ANY escape spelling
+\* (redundant escapes such as \A included), fully qualified or not
+HelperVectorT(t) ==
+  LET p == Parse(t)  n == p.labels IN
+  [kind |-> "helpers", labels |-> n, text |-> t, isfq |-> p.fq, fqdn |-> FqdnSpec(t),
+   count |-> CountLabelSpec(t), split |-> SplitSpec(t), pieces |-> SplitDomainNameSpec(t),
+   prev |-> [k \in 1..(Len(n) + 1) |-> LET r == PrevLabelSpec(t, k - 1) IN <<r.i, IF r.start THEN 1 ELSE 0>>],
+   next |-> [k \in 1..Len(n) |-> LET r == NextLabelSpec(t, SplitSpec(t)[k]) IN <<r.i, IF r.end THEN 1 ELSE 0>>],
+   canon |-> CanonicalSpec(t), rel |-> <<>>, relfq |-> FALSE]
+
 HelperVector(n) ==
   LET t == Present(n) IN
-  [kind |-> "helpers", labels |-> n, text |-> t,
+  [kind |-> "helpers", labels |-> n, text |-> t, isfq |-> TRUE, fqdn |-> t,
    count |-> CountLabelSpec(t), split |-> SplitSpec(t), pieces |-> SplitDomainNameSpec(t),
    prev |-> [k \in 1..(Len(n) + 1) |-> LET r == PrevLabelSpec(t, k - 1) IN <<r.i, IF r.start THEN 1 ELSE 0>>],
    next |-> [k \in 1..Len(n) |-> LET r == NextLabelSpec(t, SplitSpec(t)[k]) IN <<r.i, IF r.end THEN 1 ELSE 0>>],
@@ -83,5 +97,6 @@ Out ==
     [] Mode = "shapes"  -> Emit(NameVector(NameOfShape(Tail(v), Head(v))))
     [] Mode = "octets"  -> Emit(NameVector(OctetName(v[1], v[2])))
     [] Mode = "names"   -> Emit(HelperVector(v))
+    [] Mode = "texts"   -> Emit(HelperVectorT(TextOf(v)))
     [] Mode = "pairs"   -> Emit(PairVector(v[1], v[2]))
 =============================================================================
